@@ -436,6 +436,120 @@ def signature(cls, name):
     return flat(one(cls, name).args)
 
 
+# ------------------------------------------------------------------ public-view entry points: parameters and forwarding
+# the hand-picked view / export entry points (their argument lists are frozen in the model as export_signatures)
+ENTRY_POINTS = (('Key', ('public', 'as_dict', 'as_json', 'wif', 'info')),
+                ('HDKey', ('public', 'as_dict', 'as_json', 'wif', 'wif_public', 'info', 'public_master',
+                           'public_master_multisig')),
+                ('Address', ('as_dict', 'as_json')),
+                ('WalletKey', ('public', 'as_dict', 'key')),
+                ('Wallet', ('public_master', 'wif', 'as_dict', 'as_json', 'info', 'keys', 'account')))
+BASES = {'HDKey': 'Key'}
+# classes of the receivers other than self in the bodies of the entry points (reviewed by hand; an unknown receiver
+# with positional arguments is recorded as $pos<i>, which the frozen copy does not contain)
+RECEIVER_HINTS = {'cs': 'Wallet', 'key': 'WalletKey'}
+
+
+def public_named_defs(trees):
+    """every function / method of keys.py, wallets.py, db.py whose NAME presents its result as public."""
+    out = []
+    for mod in ('keys', 'wallets', 'db'):
+        for n in trees[mod].body:
+            if isinstance(n, ast.FunctionDef) and 'public' in n.name.lower():
+                out.append('%s:%s' % (mod, n.name))
+            if isinstance(n, ast.ClassDef):
+                for m in n.body:
+                    if isinstance(m, ast.FunctionDef) and 'public' in m.name.lower():
+                        q = '%s.%s' % (n.name, m.name)
+                        if q not in out:
+                            out.append(q)
+    return out
+
+
+def is_property(fn):
+    return any(ast.unparse(d) in ('property',) or ast.unparse(d).endswith('.setter') for d in fn.decorator_list)
+
+
+def params_of(fn, what):
+    """[(parameter, default source text | '$required')] without self; *args / **kwargs / keyword-only are not
+    understood on a view entry point -> raise."""
+    a = fn.args
+    if a.vararg or a.kwarg or a.kwonlyargs or a.posonlyargs:
+        raise Shape('%s: argument list shape not understood' % what)
+    names = [x.arg for x in a.args]
+    defaults = ['$required'] * (len(names) - len(a.defaults)) + [ast.unparse(d) for d in a.defaults]
+    out = list(zip(names, defaults))
+    if out and out[0][0] in ('self', 'cls'):
+        out = out[1:]
+    return out
+
+
+def entry_points(kc, wc, trees):
+    """(qualified name, class, FunctionDef) of the hand-picked entry points followed by every further public-named
+    method of the key / wallet classes (first definition: the getter of a property)."""
+    cls_of = {'Key': kc['Key'], 'HDKey': kc['HDKey'], 'Address': kc['Address'], 'WalletKey': wc['WalletKey'],
+              'Wallet': wc['Wallet']}
+    out = []
+    for cname, names in ENTRY_POINTS:
+        for n in names:
+            out.append((cname + '.' + n, cname, one(cls_of[cname], n)))
+    have = {q for q, _, _ in out}
+    for q in public_named_defs(trees):
+        if ':' in q or q in have:
+            continue
+        cname, n = q.split('.')
+        if cname in cls_of:
+            out.append((q, cname, methods(cls_of[cname])[n][0]))
+    return out, cls_of
+
+
+def resolve_method(cls_of, cname, attr):
+    while cname:
+        ms = methods(cls_of[cname]).get(attr) if cname in cls_of else None
+        if ms:
+            return cname, ms[0]
+        cname = BASES.get(cname)
+    return None, None
+
+
+def call_forwards(eps, cls_of):
+    """for every entry point: every call of (a method with the name of) an entry point in its body, as
+    (caller, (callee text, [(callee parameter, argument source text)])) with positional arguments resolved to the
+    callee's parameter names.  This is the keyword -> argument mapping the model interprets for the helpers that
+    only forward (HDKey.public_master_multisig -> HDKey.public_master)."""
+    names = {q.split('.')[1] for q, _, _ in eps}
+    out = []
+    for q, cname, fn in eps:
+        for n in ast.walk(fn):
+            if not (isinstance(n, ast.Call) and isinstance(n.func, ast.Attribute) and n.func.attr in names):
+                continue
+            recv = n.func.value
+            rtxt = flat(recv)
+            if any(isinstance(a, ast.Starred) for a in n.args) or any(k.arg is None for k in n.keywords):
+                raise Shape('%s: call %s with * / ** arguments' % (q, flat(n)))
+            if isinstance(recv, ast.Name) and recv.id == 'self':
+                ccls = cname
+            elif isinstance(recv, ast.Call) and isinstance(recv.func, ast.Name) and recv.func.id == 'super':
+                ccls = BASES.get(cname)
+                if recv.args:
+                    ccls = BASES.get(ast.unparse(recv.args[0]))
+            elif isinstance(recv, ast.Name):
+                ccls = RECEIVER_HINTS.get(recv.id)
+            else:
+                ccls = None
+            callee = None
+            if ccls:
+                _, callee = resolve_method(cls_of, ccls, n.func.attr)
+            pnames = [p for p, _ in params_of(callee, q)] if callee is not None else []
+            pairs = []
+            for i, a in enumerate(n.args):
+                pairs.append((pnames[i] if i < len(pnames) else '$pos%d' % i, flat(a)))
+            for k in n.keywords:
+                pairs.append((k.arg, flat(k.value)))
+            out.append((q, rtxt + '.' + n.func.attr, pairs))
+    return out
+
+
 def generate(repo):
     src = {}
     for f in ('keys', 'wallets', 'db'):
@@ -492,7 +606,33 @@ def generate(repo):
         for n in names:
             sigs.append(pair(S(cname + '.' + n), S(signature(cls, n))))
     out.append(deflist('export_signatures', '(string * string)', sigs))
+    # every function whose name presents its result as public; the parameters (with defaults) of every entry point;
+    # which argument each forwarding call hands to which parameter of its callee; the body of the forwarding helper
+    out.append(deflist('public_named_defs', 'string', [S(q) for q in public_named_defs(src)]))
+    eps, cls_of = entry_points(kc, wc, src)
+    out.append(deflist('entry_params', '(string * list (string * string))',
+                       [pair(S(q), '[' + '; '.join(pair(S(p), S(d)) for p, d in
+                                                    ([] if is_property(fn) else params_of(fn, q))) + ']')
+                        for q, _, fn in eps]))
+    out.append(deflist('entry_properties', 'string', [S(q) for q, _, fn in eps if is_property(fn)]))
+    out.append(deflist('call_forwards', '(string * (string * list (string * string)))',
+                       [pair(S(q), pair(S(c), '[' + '; '.join(pair(S(p), S(a)) for p, a in prs) + ']'))
+                        for q, c, prs in call_forwards(eps, cls_of)]))
+    out.append(paths_def('hdkey_public_master_multisig_paths', return_paths(kc['HDKey'], 'public_master_multisig')))
+    out.append(paths_def('hdkey_wif_public_paths', return_paths(kc['HDKey'], 'wif_public')))
+    out.append(paths_def('hdkey_wif_paths', return_paths(kc['HDKey'], 'wif')))
     return {'GenFields.v': '\n'.join(out)}
+
+
+def entry_point_params(repo):
+    """{qualified name: [(parameter, default text)]} of every public-view entry point, for the case generator of
+    harness/props/c16.py (which arguments exist; the VALUES tried come from a frozen table there)."""
+    src = {}
+    for f in ('keys', 'wallets', 'db'):
+        src[f] = ast.parse(open(os.path.join(repo, 'bitcoinlib', f + '.py'), encoding='utf8').read())
+    kc, wc = classes(src['keys']), classes(src['wallets'])
+    eps, _ = entry_points(kc, wc, src)
+    return {q: (None if is_property(fn) else params_of(fn, q)) for q, _, fn in eps}
 
 
 if __name__ == '__main__':
